@@ -57,7 +57,13 @@ func RunC01(p *harness.Program, thorough bool) Result {
 		return Result{V: v, Counters: r.Counters}
 	}
 	var st harness.CrashStats
-	v = harness.CheckCrashImages(r, crashParams(thorough || aux(p, 2) == 1, aux(p, 1)), &st)
+	cp := crashParams(thorough || aux(p, 2) == 1, aux(p, 1))
+	if r.Disk.LogLen() > 4000 && cp.MaxImages > 3000 {
+		// a huge transaction (thousands of page writes, megabytes per image): bounded sample
+		cp.MaxImages = 3000
+		r.Counters["huge-history-image-cap"]++
+	}
+	v = harness.CheckCrashImages(r, cp, &st)
 	c := r.Counters
 	c["images"] = st.Images
 	c["images-in-commit-window"] = st.InWindow
